@@ -552,3 +552,120 @@ func init() {
 		return array(fr.uninterpretedHash("keccak256", keccakConcat(args), 32, keccak256))
 	}
 }
+
+// Signatures: secp256k1 is modelled through harness keys. rtsig.SignEth(hash, i) yields 65 opaque
+// bytes tied to (protected digest, key i); SigToPub recovers key i's address from exactly that
+// digest, some unregistered address from any other digest (unforgeability assumption), and fails
+// on bytes that were not produced by SignEth.
+type recoveredKey struct {
+	addr []value
+}
+
+type sigRec struct {
+	digest []value // keccak256(prefix || hash) as computed by the hash model
+	sig    []value
+	key    int
+}
+
+var harnessKeyAddr = [3]string{
+	"a022369adf0747e15f3557cd7a3fbf6298ab7980",
+	"66282c9de6a57192934c0516cc8767f8ec8d9f1c",
+	"eb65fdde895520490f8c43776e0795877e63f967",
+}
+
+func hexToElems(h string) []value {
+	out := make([]value, len(h)/2)
+	for i := range out {
+		var b byte
+		fmt.Sscanf(h[2*i:2*i+2], "%02x", &b)
+		out[i] = b
+	}
+	return out
+}
+
+func init() {
+	cryptoPkg := "github.com/ethereum/go-ethereum/crypto"
+	externals["github.com/functionx/fx-core/v8/zzverif/rtsig.SignEth"] = func(fr *frame, args []value) value {
+		px := fr.px()
+		hash := args[0].([]value)
+		k := int(asInt64(args[1]))
+		pre := append(strElems("\x19Ethereum Signed Message:\n32"), hash...)
+		digest := fr.uninterpretedHash("keccak256", pre, 32, keccak256)
+		sig := make([]value, 65)
+		for j := range sig {
+			sig[j] = symv{t: px.freshVar("", bvSort(8)), k: types.Uint8}
+		}
+		// v byte is 0 or 1 in go-ethereum's format
+		px.assertPC(bvCmp("bvule", termOf(sig[64]), mkBV(8, 1)))
+		px.sigs = append(px.sigs, sigRec{digest: digest, sig: sig, key: k})
+		px.w.ex.noteAssumption("secp256k1: a signature made by harness key i over digest d recovers key i's address from d and an unregistered address from any other digest; other byte strings fail recovery")
+		return sig
+	}
+	externals[cryptoPkg+".SigToPub"] = func(fr *frame, args []value) value {
+		digest := args[0].([]value)
+		sig := args[1].([]value)
+		px := fr.px()
+		fail := tuple{(*value)(nil), fr.i.newError("recovery failed", iface{})}
+		if len(sig) != 65 {
+			return fail
+		}
+		for _, r := range px.sigs {
+			// same signature bytes (first 64 identical terms; the v byte may have been normalised)
+			if !sameElems(r.sig[:64], sig[:64]) {
+				// not the same terms: the bytes may still be equal (e.g. after a hex round trip)
+				se := elemsEq(r.sig[:64], sig[:64])
+				isSame := false
+				switch c := se.(type) {
+				case bool:
+					isSame = c
+				case symv:
+					isSame = px.branch(c.t)
+				}
+				if !isSame {
+					continue
+				}
+			}
+			var addr []value
+			eq := elemsEq(r.digest, digest)
+			same := false
+			switch c := eq.(type) {
+			case bool:
+				same = c
+			case symv:
+				same = px.branch(c.t)
+			}
+			if same {
+				addr = hexToElems(harnessKeyAddr[r.key])
+			} else {
+				addr = make([]value, 20)
+				for j := range addr {
+					addr[j] = symv{t: px.freshVar("", bvSort(8)), k: types.Uint8}
+				}
+				for _, ka := range harnessKeyAddr {
+					ne := elemsEq(addr, hexToElems(ka))
+					px.assertPC(mkNot(termOf(ne)))
+				}
+			}
+			pkT := fr.i.prog.ImportedPackage("crypto/ecdsa").Type("PublicKey").Type()
+			st := zero(pkT).(structure)
+			var cell value = recoveredKey{addr: addr}
+			*fr.i.structField(pkT, st, "X") = &cell
+			var v value = st
+			return tuple{&v, iface{}}
+		}
+		return fail
+	}
+	externals[cryptoPkg+".PubkeyToAddress"] = func(fr *frame, args []value) value {
+		st := args[0].(structure)
+		pkT := fr.i.prog.ImportedPackage("crypto/ecdsa").Type("PublicKey").Type()
+		xp, _ := (*fr.i.structField(pkT, st, "X")).(*value)
+		if xp == nil {
+			panic(rtErr(fr.i, "invalid memory address or nil pointer dereference (empty public key)"))
+		}
+		rk, ok := (*xp).(recoveredKey)
+		if !ok {
+			panic(engineError{"PubkeyToAddress on a key that was not produced by SigToPub"})
+		}
+		return array(append([]value{}, rk.addr...))
+	}
+}
